@@ -550,9 +550,9 @@ Proof.
               ntake (final_pos (next_pos P B e) (nlen (e_win e)) evs - P) (ndrop P S)).
     { intros a front Hnp Hfr. rewrite Hnp in *. split; [lia|]. subst front.
       rewrite <- (ndrop_ndrop a P S). rewrite ntake_split. f_equal. lia. }
-    destruct Hsl as [Hwin _].
-    destruct (e_op e) eqn:Eo; destruct (e_out e) eqn:Eu; try contradiction; try discriminate;
-      unfold next_pos in *; rewrite Eo, Eu in *.
+    destruct Hsl as [Hwin _]. clear IH Htr Hd Hle Hsl'.
+    unfold next_pos in *.
+    destruct (e_op e) eqn:Eo; destruct (e_out e) eqn:Eu; cbv beta iota in *; try contradiction; try discriminate.
     + (* fill *) apply (Hgen 0 []); [lia|reflexivity].
     + (* consume *) apply (Hgen (N.min n B)); [reflexivity|].
       rewrite Hwin, Hwb, ntake_ntake. reflexivity.
@@ -606,8 +606,8 @@ Section Reach.
       - unfold run_now in *. cbn [app run] in *.
         destruct (step compact r0 o) as [[x r0']| |]; cbn [bind] in *; try discriminate.
         destruct (run compact r0' ops) as [[evs' r2]| |] eqn:E2; cbn [bind] in *; try discriminate.
-        inversion Er; subst. rewrite (IH r0' evs' eq_refl). reflexivity. }
-    rewrite Hl in Hla. repeat split; auto.
+        inversion Er; subst. rewrite (IH r0' evs' E2). reflexivity. }
+    rewrite Hl in Hla. split; [exact Hsp|]. split; [exact Hsl|]. split; [exact Hmono|exact Hla].
   Qed.
 
   Lemma reach_no_early_eof r' :
